@@ -3,6 +3,7 @@
 package urlutil
 
 import (
+	"encoding/json"
 	"net/url"
 
 	"github.com/AdguardTeam/golibs/internal/verifrt"
@@ -66,6 +67,41 @@ func VerifC14URLText() {
 		again, aerr := url.Parse(want)
 		verifrt.Assert(aerr == nil && c14SameURL(&back.URL, again), "UnmarshalText result differs from url.Parse of the same text")
 		verifrt.Assert(back.String() == want, "text round trip changes String()")
+	}
+	verifrt.Cover("accepted")
+}
+
+// VerifC14URLJSON: encoding/json Marshal -> Unmarshal of an accepted URL gives
+// a URL with the same String().  (json.Marshal/Unmarshal are bridged by the
+// executor to URL.MarshalText + the real json string quoting with HTML
+// escaping, and to the real json string validity check + URL.UnmarshalJSON;
+// natively the real encoding/json runs.)
+func VerifC14URLJSON() {
+	max := 2
+	if verifrt.Thorough() {
+		max = 3
+	}
+	raw := verifrt.String(verifrt.Len(max))
+	for i := 0; i < len(raw); i++ {
+		// valid UTF-8 only: encoding/json replaces invalid bytes by U+FFFD
+		verifrt.Assume(raw[i] < 0x80)
+	}
+	u, err := Parse(raw)
+	if err != nil {
+		verifrt.Cover("rejected")
+
+		return
+	}
+	want := u.String()
+	verifrt.Known("C14-url-with-empty-text", want == "")
+	data, merr := json.Marshal(u)
+	verifrt.Assert(merr == nil, "json.Marshal of an accepted URL failed")
+	var back URL
+	uerr := json.Unmarshal(data, &back)
+	verifrt.ObserveString("json", string(data))
+	verifrt.Assert(uerr == nil, "json.Unmarshal rejects the JSON form of an accepted URL")
+	if uerr == nil {
+		verifrt.Assert(back.String() == want, "JSON round trip changes String()")
 	}
 	verifrt.Cover("accepted")
 }
